@@ -23,23 +23,43 @@ def addrs(rng):
 
 class Spec(unit.UnitSpec):
     pid = "C31"
-    modules = ["MmtkModel.Props.C31"]
+    modules = ["MmtkModel.Props.C31", "MmtkModel.Props.C31Sft"]
     theorems = ["Mmtk.Resolve.sft_total", "Mmtk.Resolve.sft_table_size", "Mmtk.Resolve.sft_exact",
                 "Mmtk.Resolve.descriptor_total_fails", "Mmtk.Resolve.descriptor_oob_iff",
                 "Mmtk.Resolve.descriptor_total_partial", "Mmtk.Resolve.descriptor_total_fixed",
-                "Mmtk.Resolve.descriptor_fixed_exact", "Mmtk.Resolve.map32_descriptor_exact"]
+                "Mmtk.Resolve.descriptor_fixed_exact", "Mmtk.Resolve.map32_descriptor_exact",
+                # discontiguous layouts (Props/C31Sft.lean): the chunk-granular SFT map agrees with Map32's descriptor table in
+                # every reachable state of grow_space / release / release_all histories
+                "Mmtk.Map32.freeNoLock_sft", "Mmtk.Map32.sftEq_free", "Mmtk.Map32.sftEq_freeAll", "Mmtk.Map32.allocate_sft",
+                "Mmtk.Map32.sftUpdate_ok", "Mmtk.Map32.sftEq_growSpace", "Mmtk.Map32.sftEq_growSpace_inv",
+                "Mmtk.Map32.alloc_ne_zero_of_inv", "Mmtk.Map32.sftEq_release", "Mmtk.Map32.sftEq_releaseAll",
+                "Mmtk.Map32.sft_matches_descriptor", "Mmtk.Map32.sft_matches_descriptor_debug",
+                "Mmtk.Map32.sft_matches_descriptor_init", "Mmtk.Map32.sft_matches_descriptor_init_debug",
+                "Mmtk.Map32.sft_exact_of_inv", "Mmtk.Map32.sftGet_exact_of_inv"]
     component = "resolve"
     relation = "Mmtk.Resolve.* ≙ policy::sft_map::SFTSpaceMap index arithmetic, Map64/Map32::get_descriptor_for_address (via verif::layout::resolve)"
-    assumptions = ["unit part only: private SFTSpaceMap / Map64 / Map32 instances without live spaces (every SFT entry is the empty SFT); "
-                   "the whole-GC part (live spaces, dense / sparse chunk maps) is checked elsewhere; the model takes explicit "
-                   "descriptor tables so it can be fed the extents of live spaces",
+    assumptions = ["64-bit unit part: private SFTSpaceMap / Map64 instances without live spaces (every SFT entry is the empty SFT); the model "
+                   "takes explicit descriptor tables so it can be fed the extents of live spaces",
+                   "discontiguous layouts (cfg layout 32 / compressed): the process-global SFTSparseChunkMap is written by stand-in "
+                   "spaces `s<descriptor>` exactly where Space::grow_space writes it (after a successful grow_discontiguous_space) and "
+                   "cleared by the real Map32::free_contiguous_chunks; sft_matches_descriptor needs no protocol hypothesis in debug "
+                   "builds; in release builds it assumes the region map never hands out chunk 0 (ZeroSafe; discharged per step by "
+                   "alloc_ne_zero_of_inv under C29's invariant). Dense chunk map (vm_space / malloc builds) not covered",
+                   "whole-GC part: programs under `cfg layout compressed` (real Map32 + SFTSparseChunkMap of a live plan); expected owner "
+                   "of a chunk = the space on whose region list (walked from its page resource's head) the chunk lies; the Lean model "
+                   "is fed the observed region lists and must answer every probe like the live instance",
                    "default 64-bit layout for SFTSpaceMap / Map64 (space extent 2^41, heap 2^41..17·2^41), cfg layout 32 for Map32",
                    "descriptor_total is FALSE for Map64 (known finding map64:descriptor-index-oob); proved: exact failure set, "
                    "partial totality, and totality + conservativity of the bounds-checked repair"]
     rule = ("addresses: 0, 8, 2^k±8, every space boundary i·2^41±8 (i ≤ 19), heap edges, the 17th/18th slot, side-metadata "
             "range, usize::MAX&~7, random 64/47-bit; ops: SFT has_entry/index/get_checked, private Map64 insert + "
             "get_descriptor_for_address under catch_unwind, the global VM_MAP, Map32 under cfg layout 32. non-trivial = address "
-            "has an SFT entry or a non-zero descriptor or the lookup panics; distinct = distinct (history, outputs)")
+            "has an SFT entry or a non-zero descriptor or the lookup panics; distinct = distinct (history, outputs). layout 32 also: "
+            "component `dpr` histories (grow_space of 1..33 chunks by 1..4 spaces, release head/middle/tail, release_all) with the "
+            "global sparse SFT map dumped next to the descriptor table after every op + `sft` lookups at range / table edges. "
+            "whole-GC: Los objects of 1..4 chunks allocated, dropped, collected (GenImmix, SemiSpace, MarkSweep, Immix; thorough + "
+            "GenCopy, StickyImmix, MarkCompact, PageProtect); after every collection sftname / desc / inspaces / ismapped at start, "
+            "middle, end of the 40 lowest heap chunks + 7 addresses outside the heap / table")
 
     def __init__(self, which="64"):
         self.which = which
@@ -65,11 +85,15 @@ class Spec(unit.UnitSpec):
             if rng.random() < 0.1:
                 ops.append("resolve bounds")
             cases.append(Case(ops))
+        if self.which == "32":
+            # chunk-granular SFT map (SFTSparseChunkMap) written by grow_space / cleared by Map32's free, through the
+            # page-resource layer over a private Map32 (component `dpr`)
+            cases += layoutlib.dpr_gen(rng, 250 if tier == "quick" else 10000, debug)
         return cases
 
     def corpus(self, debug):
         if self.which != "64":
-            return [Case(["resolve new", "resolve desc 0", "resolve desc 0x80000000", "resolve desc 0xfffffffffffffff8",
+            return layoutlib.DPR_CORPUS + [Case(["resolve new", "resolve desc 0", "resolve desc 0x80000000", "resolve desc 0xfffffffffffffff8",
                           "resolve desc 0x7fffffffffff", "resolve desc 0x800000000000", "resolve gdesc 0xd0000000"])]
         return [Case(["resolve new", "resolve bounds", "resolve sft 0", "resolve sft 0x20000000000", "resolve sft 0x1ffffffffff8",
                       "resolve sft 0x200000000000", "resolve sft 0xfffffffffffffff8"]),
@@ -81,6 +105,8 @@ class Spec(unit.UnitSpec):
     def oracle(self, case, impl_out):
         """C31's statement on the implementation's outputs: never panics; SFT entry ⇔ inside a space extent; descriptor
         of the space whose extent contains the address."""
+        if case.ops and case.ops[0].startswith("dpr "):
+            return layoutlib.dpr_oracle(case, impl_out, want=("sft", "map32", "dpr"))
         bad = []
         inserted = {}          # space index -> raw
         for op, out in zip(case.ops, impl_out):
@@ -123,27 +149,33 @@ class Spec(unit.UnitSpec):
         return res
 
     def nontrivial(self, case, out):
+        if case.ops and case.ops[0].startswith("dpr "):
+            return layoutlib.dpr_nontrivial(case, out)
         return any(o.startswith("true") or o.startswith("panic") or (o.isdigit() and o != "0") for o in out)
 
     def summarize(self, cases, outs):
-        h, k = {}, {}
+        h, k, pr = {}, {}, {}
+        layoutlib.dpr_summarize(cases, outs, h, pr)
         for c, o in zip(cases, outs):
             for op, out in zip(c.ops, o):
                 t = op.split()
+                if t[0] == "dpr":
+                    continue
                 h[f"{self.variant}:{t[1]}"] = h.get(f"{self.variant}:{t[1]}", 0) + 1
                 if t[1] in ("desc", "gdesc", "sft"):
                     a = int(t[2], 0)
                     b = ("below-heap" if a < SP else "spaces1-15" if a < 16 * SP else "slot16-17" if a <= HEAP_END else "above-heap")
                     k[b] = k.get(b, 0) + 1
-        return {"op": h, "address_class": k}
+        return {"op": h, "address_class": k, "page_resource_sft": pr}
 
 
 META = {
-    "text": 'Unit part. Lean theorems over all addresses: SFTSpaceMap index < 32 (sft_total), get_checked returns entry i exactly inside the extent of space i ∈ 1..15 and the empty SFT elsewhere (sft_exact); Map64::get_descriptor_for_address is NOT total — exact failure set [16·2^41, heap_end] (descriptor_oob_iff), decide-witnesses, descriptor_total_partial outside it, and the bounds-checked repair proved total, conservative and exact; Map32 lookup total. Exact differential on private SFTSpaceMap / Map64 / Map32 and the global VM_MAP at boundary addresses.',
-    "note": 'Known finding map64:descriptor-index-oob (genuine defect, not patched). Whole-GC part (live spaces, dense/sparse chunk maps, is_in_mmtk_spaces) is not covered by this unit check. Trusted: Lean kernel + standard axioms, hand-written model, sampling differential, add-only hooks.',
+    "text": 'Discontiguous layouts: the Map32 history model carries the chunk-granular SFT map (written by grow_space, cleared per chunk by free_contiguous_chunks_no_lock); sft_matches_descriptor: SFT entry = VM-map descriptor for every chunk in every reachable state, hence (sft_exact_of_inv) a freed chunk resolves to no space and an allocated chunk to its owner; decide-witness that clearing only the first chunk breaks it. Exact differential on the real SFTSparseChunkMap + private Map32 through CommonPageResources (component dpr), and real GC runs under the compressed-pointer layout probing every chunk ever used (sftname / desc / inspaces / ismapped) against the Lean sparse-map / Map32 lookup model and a Python oracle. Unit part. Lean theorems over all addresses: SFTSpaceMap index < 32 (sft_total), get_checked returns entry i exactly inside the extent of space i ∈ 1..15 and the empty SFT elsewhere (sft_exact); Map64::get_descriptor_for_address is NOT total — exact failure set [16·2^41, heap_end] (descriptor_oob_iff), decide-witnesses, descriptor_total_partial outside it, and the bounds-checked repair proved total, conservative and exact; Map32 lookup total. Exact differential on private SFTSpaceMap / Map64 / Map32 and the global VM_MAP at boundary addresses.',
+    "note": 'Known finding map64:descriptor-index-oob (genuine defect, not patched). Dense chunk map (vm_space / malloc_mark_sweep builds) is not covered. Trusted: Lean kernel + standard axioms, hand-written model, sampling differential, add-only hooks.',
     "technique": 'Lean 4 proof (mask/shift arithmetic, decide witnesses) + exact differential hx_unit vs compiled Lean model',
 }
 
 
 def main(argv=None):
-    return layoutlib.multi_main([Spec("64"), Spec("32")], argv)
+    return layoutlib.multi_main([Spec("64"), Spec("32")], argv,
+                                extra=layoutlib.gc_part("C31", ("sft:", "vmmap:", "mmap:", "gc:", "correspondence:")))
